@@ -54,34 +54,42 @@ def run(cmd, **kw):
 
 
 def main():
+    """Mutants are applied in a scratch worktree of /repo's HEAD under /tmp (never in /repo itself); the checks run against it via VF_REPO."""
+    import tempfile
     sel = sys.argv[1:]
-    assert run(["git", "-C", REPO, "status", "--porcelain", "--untracked-files=no"]).stdout.strip() == "", "/repo has uncommitted changes"
+    wt = tempfile.mkdtemp(prefix="mutant-", dir="/tmp")
+    os.rmdir(wt)
+    a = run(["git", "-C", REPO, "worktree", "add", "--detach", wt, "HEAD"])
+    assert a.returncode == 0, a.stdout
     results = []
-    for name, f, old, new, props in M:
-        if sel and not any(s in name or s in props for s in sel):
-            continue
-        p = os.path.join(REPO, f)
-        src = open(p).read()
-        if src.count(old) != 1:
-            print(f"SKIP {name}: pattern occurs {src.count(old)} times")
-            results.append((name, "pattern-missing", props))
-            continue
-        try:
-            open(p, "w").write(src.replace(old, new))
-            for prop in props:
-                if sel and not any(s in name or s == prop for s in sel):
-                    continue
-                t0 = time.time()
-                r = run([os.path.join(VERIF, "check"), prop, "--tier", "quick", "--no-mc"], cwd=VERIF)
-                caught = r.returncode == 1 and "VIOLATION property=" + prop in r.stdout
-                what = re.findall(r"\[([^\]]*)\]", r.stdout)[:1]
-                print(f"{'CAUGHT' if caught else 'MISSED'} {name} by {prop} rc={r.returncode} {what} ({time.time()-t0:.0f}s)")
-                if not caught:
-                    print("   " + "\n   ".join(r.stdout.strip().splitlines()[-4:]))
-                results.append((name, "caught" if caught else "missed", prop))
-        finally:
-            open(p, "w").write(src)
-    assert run(["git", "-C", REPO, "status", "--porcelain", "--untracked-files=no"]).stdout.strip() == ""
+    try:
+        for name, f, old, new, props in M:
+            if sel and not any(s in name or s in props for s in sel):
+                continue
+            p = os.path.join(wt, f)
+            src = open(p).read()
+            if src.count(old) != 1:
+                print(f"SKIP {name}: pattern occurs {src.count(old)} times")
+                results.append((name, "pattern-missing", props))
+                continue
+            try:
+                open(p, "w").write(src.replace(old, new))
+                for prop in props:
+                    if sel and not any(s in name or s == prop for s in sel):
+                        continue
+                    t0 = time.time()
+                    r = run([os.path.join(VERIF, "check"), prop, "--tier", "quick", "--no-mc"], cwd=VERIF, env=dict(os.environ, VF_REPO=wt))
+                    caught = r.returncode == 1 and "VIOLATION property=" + prop in r.stdout
+                    viol = [l for l in r.stdout.splitlines() if l.startswith("VIOLATION")][:1]
+                    what = viol[0].split("[")[-1].rstrip("]") if viol else ""
+                    print(f"{'CAUGHT' if caught else 'MISSED'} {name} by {prop} rc={r.returncode} [{what}] ({time.time()-t0:.0f}s)", flush=True)
+                    if not caught:
+                        print("   " + "\n   ".join(r.stdout.strip().splitlines()[-4:]))
+                    results.append((name, "caught" if caught else "missed", prop))
+            finally:
+                open(p, "w").write(src)
+    finally:
+        run(["git", "-C", REPO, "worktree", "remove", "--force", wt])
     missed = [r for r in results if r[1] != "caught"]
     print(f"{len(results) - len(missed)}/{len(results)} caught")
     sys.exit(1 if missed else 0)
